@@ -171,11 +171,51 @@ PairVerdict(t) ==
    nseq |-> Cardinality({r \in 1..N : Alternations(t.runs[r].sched) <= 1}),
    nabort |-> Cardinality({r \in 1..N : HasAbort(t.runs[r].sched, 1)})]
 
+----------------------------------------------------------------------------
+(* Long streams (StreamCore "Long streams").  trace:                                                      *)
+(*   [id, kind = "long", L : [name, mode, pre, fill, m, post, reps], total, labels : Seq([label, size]),  *)
+(*    dec : Seq([name, outs : Seq([items : [period, n], err, big, digest]), idx])]  labels[1] = unsplit   *)
+(* Outputs are encoded deterministically and losslessly (or, when huge, truncated + flagged `big`, their   *)
+(* identity kept by `digest`), so equal records <=> equal outputs.                                         *)
+
+LongDec(t, d) ==
+  LET N == Len(t.labels)
+      U == d.outs[d.idx[1]]
+      E == ExpectedLong(d.name, t.L)
+      used == {d.idx[r] : r \in 1..N}
+      first(k) == CHOOSE r \in 1..N : d.idx[r] = k /\ \A q \in 1..(r - 1) : d.idx[q] # k
+      \* o.big: the encoding was too large to pass on in full - then it is not the expected one, whose encoding is small
+      okSpec(o) == o.err = "none" /\ ~o.big /\ PSame(o.items, E)
+      rec(clause, rel, o, r, field) ==
+        [dec |-> d.name, clause |-> clause, rel |-> rel, err |-> o.err, label |-> t.labels[r].label, size |-> t.labels[r].size,
+         run |-> r, field |-> field, nobs |-> o.items.n, nexp |-> IF rel = "spec" THEN E.n ELSE U.items.n]
+  IN
+  IF d.name = "iter_bytes"
+  THEN LET bad == {r \in 1..N : ~okSpec(d.outs[d.idx[r]])} IN
+       IF bad = {} \/ ~Liftable(t.L) THEN {}
+       ELSE LET r == CHOOSE z \in bad : \A y \in bad : z <= y IN {rec("C18.bytes_concat", "spec", d.outs[d.idx[r]], r, "concat")}
+  ELSE
+    {rec(IF d.outs[k].err = "none" /\ d.outs[k].items.n + 1 = U.items.n /\ U.err = "none" THEN "C18.last_event_lost" ELSE "C18.differs_from_unsplit",
+         "unsplit", d.outs[k], first(k), IF d.outs[k].items.n # U.items.n THEN "count" ELSE "item")
+       : k \in {j \in used : d.outs[j] # U}}
+    \cup
+    (IF okSpec(U) \/ ~Liftable(t.L) THEN {}
+     ELSE {rec("C18.differs_from_spec", "spec", U, 1, IF U.err # "none" THEN "error" ELSE IF U.items.n # E.n THEN "count" ELSE "item")})
+
+LongVerdict(t) ==
+  [id |-> t.id, kind |-> "long",
+   fails |-> [i \in 1..Len(t.dec) |-> LongDec(t, t.dec[i])],
+   nruns |-> Len(t.labels),
+   liftable |-> Liftable(t.L),
+   nitems |-> ExpectedLong(IF t.L.mode = "sse" THEN "iter_sse" ELSE "iter_ndjson", t.L).n]
+
 Init == tid \in 1..Len(Traces) /\ done = FALSE
 Judge ==
   /\ ~done
   /\ done' = TRUE
   /\ UNCHANGED tid
-  /\ PrintT("VERDICT " \o ToJson(IF Traces[tid].kind = "pair" THEN PairVerdict(Traces[tid]) ELSE Verdict(Traces[tid])))
+  /\ PrintT("VERDICT " \o ToJson(IF Traces[tid].kind = "pair" THEN PairVerdict(Traces[tid])
+                                   ELSE IF Traces[tid].kind = "long" THEN LongVerdict(Traces[tid])
+                                   ELSE Verdict(Traces[tid])))
 Spec == Init /\ [][Judge]_<<tid, done>>
 =============================================================================
